@@ -176,7 +176,8 @@ def conv(tp, raw):
         else:
             items = raw
         return {'list': [{'str': x} for x in items]}
-    if tp == 'dict[str,int]':
+    if tp in ('dict[str,int]', 'dict[str,str]'):
+        # shorthand: pairs separated by ',', key and value by the FIRST '=' of the pair, both stripped
         if isinstance(raw, str):
             if raw.lstrip().startswith('{'):
                 d = json.loads(raw)
@@ -187,6 +188,8 @@ def conv(tp, raw):
                     d[k.strip()] = v.strip()
         else:
             d = raw
+        if tp == 'dict[str,str]':
+            return {'dict': sorted([[{'str': k}, {'str': v}] for k, v in d.items()], key=json.dumps)}
         return {'dict': sorted([[{'str': k}, c_int(int(v))] for k, v in d.items()], key=json.dumps)}
     if tp == 'datetime':
         if isinstance(raw, dict):
@@ -282,7 +285,7 @@ WORDS = ['my', 'var', 'name', 'conn', 'debug', 'mode', 'host', 'port', 'key', 'a
          'limit', 'level', 'path', 'flag', 'count', 'size', 'zone', 'id2', 'v1x']
 PFX = ['PFX_', 'pfx_', 'SVC_', 'cfg_']
 PFX_FREE = ['Pfx-', 'svc', 'Cfg_x-', 'PFX']           # only for SCREAMING_SNAKE / SNAKE classes
-TYPES = ['int', 'int', 'bool', 'str', 'str', 'list[int]', 'list[str]', 'list[str]', 'dict[str,int]', 'Optional[int]', 'datetime', 'float']
+TYPES = ['int', 'int', 'bool', 'str', 'str', 'list[int]', 'list[str]', 'list[str]', 'dict[str,int]', 'dict[str,str]', 'dict[str,str]', 'Optional[int]', 'datetime', 'float']
 PRIOS = [None, 'SCREAMING_SNAKE', 'SNAKE', 'CAMEL', 'PASCAL']
 
 
@@ -376,6 +379,16 @@ class Universe:
             s = r.choice([','.join('%s=%d' % kv for kv in d.items()), ' , '.join('%s = %d' % kv for kv in d.items()),
                           json.dumps(d)])
             return {'py': s} if as_kw else s
+        if tp == 'dict[str,str]':
+            # values (and keys) may contain '=', ':', spaces; values may be empty; never a ',' in shorthand
+            keys = r.sample(['a', 'url', 'my key', 'k:1', 'b-%d' % n, 'Tok', 'x.y'], r.choice([1, 2, 3]))
+            d = {k: r.choice(['v%d', 'a=b=%d', 'http://h/p?x=%d&y=2', 'YWJj%d==', 'k:%d', 'two words %d', '=%d', '']).replace('%d', str(n + j))
+                 for j, k in enumerate(keys)}
+            if as_kw and r.random() < 0.5:
+                return {'py': d}
+            eq, sep = r.choice(['=', '=', ' = ', '= ']), r.choice([',', ',', ' , ', ', '])
+            s = r.choice([sep.join(k + eq + v for k, v in d.items())] * 3 + [json.dumps(d)])
+            return {'py': s} if as_kw else s
         if tp == 'datetime':
             base = datetime.datetime(2022, 4, 27, 12, 30, 45) + datetime.timedelta(seconds=n * 61)
             if as_kw and r.random() < 0.5:
@@ -434,13 +447,12 @@ def gen_class(U, name):
         x = r.random()
         if x < 0.3:
             pool = U.alts[b] + [n for n in spellings('', f['name'], b) if SAFE.match(n)][:6]
-            k = r.choice([1, 1, 2, 3])
+            k = r.choice([1, 2, 2, 3])
             names = r.sample(pool, k)
+            if k >= 2 and names == sorted(names) and r.random() < 0.8:
+                names.reverse()                       # declared order differs from alphabetical order
             via = r.choice(['env_field', 'json_field', 'meta'])
-            if via == 'meta' or k == 1:
-                f['explicit'] = names[0]
-            else:
-                f['explicit'] = names
+            f['explicit'] = names[0] if k == 1 else names
             f['via'] = via
         fields.append(f)
     c = {'name': name, 'fields': fields, 'prio': prio, 'prio_as_enum': r.random() < 0.3, 'prefix': prefix,
@@ -534,6 +546,52 @@ def tier_combo(U, c, env, p_field=0.6):
                 env.pop(n, None)
 
 
+def explicit_combo(U, c, env, p_field=0.7):
+    """For explicitly mapped fields: a random non-empty subset of the (prefixed) candidate names is present, with
+    different values, mostly two or more of them; the other candidates are removed."""
+    r = U.r
+    prefix = c.get('prefix') or ''
+    for f in c['fields']:
+        ex = f.get('explicit')
+        if not ex or r.random() > p_field:
+            continue
+        names = [prefix + n for n in ([ex] if isinstance(ex, str) else ex)]
+        if not all(ENV_OK.match(n) for n in names):
+            continue
+        b = tuple(f['base'])
+        mask = [r.random() < 0.7 for _ in names]
+        if not any(mask):
+            mask[r.randrange(len(mask))] = True
+        for n, m in zip(names, mask):
+            if m:
+                env[n] = U.value(U.types[b])
+                U.used.append((n, b))
+            else:
+                env.pop(n, None)
+
+
+def gen_files(U, cands, kind, k, env=None):
+    """k dotenv files / secret directories for ONE overlay, with overlapping names: one or two "hot" names (preferably
+    already set in os.environ) get a different value in most members of the group."""
+    r = U.r
+    safe = [x for x in cands if SAFE.match(x[0])]
+    live = [x for x in safe if env is not None and x[0] in env]
+    hot = [r.choice(live) if live and r.random() < 0.6 else r.choice(safe) for _ in range(r.choice([1, 1, 2]))]
+    ids = []
+    for _ in range(k):
+        i = gen_file(U, cands, kind)
+        store = U.dirs if kind == 'dir' else U.files
+        content = store[str(i)]
+        for n, b in hot:
+            if r.random() < 0.75:
+                content = [kv for kv in content if kv[0] != n]
+                content.insert(r.randrange(len(content) + 1), [n, U.value(U.types[b])])
+                U.used.append((n, b))
+        store[str(i)] = content
+        ids.append(i)
+    return ids
+
+
 def gen_file(U, cands, kind):
     r = U.r
     k = r.choice([1, 2, 2, 3, 4])
@@ -555,7 +613,7 @@ def gen_file(U, cands, kind):
     return int(i)
 
 
-def gen_inst(U, ci, c, cands, reload):
+def gen_inst(U, ci, c, cands, reload, env=None):
     r = U.r
     o = {'op': 'inst', 'cls': ci, 'reload': reload, 'kwargs': {}}
     for f in c['fields']:
@@ -563,14 +621,14 @@ def gen_inst(U, ci, c, cands, reload):
             o['kwargs'][f['name']] = U.value(f['type'], as_kw=True)
     x = r.random()
     if x < 0.2:
-        o['env_file'] = [gen_file(U, cands, 'file') for _ in range(r.choice([1, 1, 2, 3]))]
+        o['env_file'] = gen_files(U, cands, 'file', r.choice([1, 2, 2, 3]), env)
     elif x < 0.27:
         o['env_file'] = False
     if r.random() < 0.15:
         camelish = c.get('prio') in ('CAMEL', 'PASCAL')
         o['prefix'] = r.choice([None, ''] + (PFX if camelish else PFX + PFX_FREE))
     if r.random() < 0.18:
-        o['secrets'] = [gen_file(U, cands, 'dir') for _ in range(r.choice([1, 1, 2]))]
+        o['secrets'] = gen_files(U, cands, 'dir', r.choice([1, 2, 2, 3]), env)
     return o
 
 
@@ -581,12 +639,14 @@ def gen_history(r, hid, long=False):
     cands = candidate_names(U, classes, extra_prefixes=[r.choice(PFX)])
     for c in classes:
         if r.random() < 0.2:
-            c['env_file'] = [gen_file(U, cands, 'file') for _ in range(r.choice([1, 2]))]
+            c['env_file'] = gen_files(U, cands, 'file', r.choice([1, 2, 3]))
         if r.random() < 0.12:
-            c['secrets'] = [gen_file(U, cands, 'dir')]
+            c['secrets'] = gen_files(U, cands, 'dir', r.choice([1, 2, 2]))
     os0 = gen_env(U, cands, r.choice([0.03, 0.08, 0.15]))
     if r.random() < 0.6:
         tier_combo(U, r.choice(classes), os0)
+    if r.random() < 0.6:
+        explicit_combo(U, r.choice(classes), os0)
     cur = dict(os0)
     ops, defined = [], set()
 
@@ -654,14 +714,14 @@ def gen_history(r, hid, long=False):
             do_rename()
             if r.random() < 0.7:
                 ci = r.choice(sorted(defined))
-                ops.append(gen_inst(U, ci, classes[ci], cands, reload=True))
+                ops.append(gen_inst(U, ci, classes[ci], cands, reload=True, env=cur))
         else:
             ci = r.randrange(ncls)
             ensure(ci)
-            ops.append(gen_inst(U, ci, classes[ci], cands, reload=r.random() < 0.6))
+            ops.append(gen_inst(U, ci, classes[ci], cands, reload=r.random() < 0.6, env=cur))
     ci = r.randrange(ncls)
     ensure(ci)
-    ops.append(gen_inst(U, ci, classes[ci], cands, reload=True))
+    ops.append(gen_inst(U, ci, classes[ci], cands, reload=True, env=cur))
     return {'id': hid, 'os0': os0, 'files': U.files, 'dirs': U.dirs, 'ops': ops}
 
 
@@ -672,13 +732,15 @@ def gen_pure(r, pid):
     c.pop('reload_env', None)
     cands = candidate_names(U, [c], extra_prefixes=[r.choice(PFX)])
     if r.random() < 0.15:
-        c['env_file'] = [gen_file(U, cands, 'file') for _ in range(r.choice([1, 2]))]
+        c['env_file'] = gen_files(U, cands, 'file', r.choice([1, 2, 3]))
     if r.random() < 0.1:
-        c['secrets'] = [gen_file(U, cands, 'dir')]
+        c['secrets'] = gen_files(U, cands, 'dir', r.choice([1, 2, 2]))
     os0 = gen_env(U, cands, r.choice([0.02, 0.05, 0.1, 0.2]))
     if r.random() < 0.6:
         tier_combo(U, c, os0)
-    inst = gen_inst(U, 0, c, cands, reload=True)
+    if r.random() < 0.7:
+        explicit_combo(U, c, os0)
+    inst = gen_inst(U, 0, c, cands, reload=True, env=os0)
     p = {'id': pid, 'os0': os0, 'files': U.files, 'dirs': U.dirs,
          'ops': [{'op': 'class', 'id': 0, 'cls': c}, inst]}
     if r.random() < 0.08:
